@@ -2720,3 +2720,37 @@ Section NoError.
     - unfold init. cbn [m_biases]. apply Forall_map. apply Forall_forall. intros c _. left. cbn. auto.
   Qed.
 End NoError.
+
+(* ================================================================================================== *)
+(* Part E: hidden Jacobian force under multiple time stepping                                          *)
+(* ================================================================================================== *)
+Section HiddenJacobianR.
+  Local Open Scope R_scope.
+
+  Fixpoint rsumR (l : list R) : R := match l with [] => 0 | x :: r => x + rsumR r end.
+
+  (* a window of the schedule: the first step awake, the others asleep *)
+  Definition window_of (e : R * (R * R)) (n : nat) : list (bool * (R * (R * R))) :=
+    (true, e) :: repeat (false, e) n.
+
+  Lemma rsumR_asleep scaled n hide apply e k :
+    rsumR (map (jac_step Rops scaled n hide apply) (repeat (false, e) k)) = 0.
+  Proof. induction k as [|k IH]; cbn [repeat map rsumR]; [reflexivity|]. rewrite IH. destruct e as [F [Fa fj]]. cbn. lra. Qed.
+
+  (* impulse of a window of n steps = n times the instantaneous force (biases minus the hidden Jacobian force) *)
+  Theorem hidden_jacobian_impulse (n : Z) (hide apply : bool) (F Fa fj : R) (k : nat) :
+    rsumR (jac_trace Rops true n hide apply (window_of (F, (Fa, fj)) k))
+    = IZR n * ((F + Fa) - (if hide && apply then fj else 0)).
+  Proof.
+    unfold jac_trace, window_of. cbn [map rsumR]. rewrite rsumR_asleep.
+    unfold jac_step, jac_force. cbn [nadd nsub nmul n0 nofZ Rops]. destruct (hide && apply); lra.
+  Qed.
+
+  (* the variant that subtracts fj once (not times the factor) does not conserve the impulse *)
+  Lemma hidden_jacobian_unscaled :
+    exists (n : Z) (F Fa fj : R),
+      rsumR (jac_trace Rops false n true true (window_of (F, (Fa, fj)) 1)) <> IZR n * ((F + Fa) - fj).
+  Proof.
+    exists 2%Z, 0, 0, 1. unfold jac_trace, window_of. cbn [repeat map rsumR jac_step jac_force andb nadd nsub nmul n0 nofZ Rops]. lra.
+  Qed.
+End HiddenJacobianR.
